@@ -374,6 +374,7 @@ def run(repo: Repo, ctx) -> None:
 # ----------------------------------------------------------------------
     _r6(repo, ctx)
     _r7(repo, ctx)
+    _r8(repo, ctx)
 
 
 LATERAL_NOT_FORWARDED_OK = {
@@ -795,3 +796,231 @@ def _attr_is_set(repo: Repo, f: FuncInfo, e: ast.Attribute
     if anns:
         return all(anns)
     return None
+
+
+_MUT_CTORS = {'dict', 'list', 'set', 'OrderedDict', 'collections.OrderedDict',
+              'collections.defaultdict', 'defaultdict', 'bytearray'}
+
+
+def _mutable_default(v: ast.AST) -> bool:
+    return isinstance(v, (ast.Dict, ast.List, ast.Set, ast.ListComp,
+                          ast.DictComp, ast.SetComp)) or (
+        isinstance(v, ast.Call) and (dotted(v.func) or '') in _MUT_CTORS)
+
+
+_MUTATORS = {'append', 'extend', 'insert', 'add', 'update', 'setdefault',
+             'pop', 'popitem', 'remove', 'discard', 'clear', 'sort',
+             '__setitem__', '__delitem__'}
+_MUT_CACHE: dict = {}
+
+
+def _mutated_fields(repo: Repo) -> Set[str]:
+    """Attribute names that are changed in place somewhere in the SQL / IR
+    compilers: `x.F[k] = v`, `del x.F[k]`, `x.F.append(..)`, `x.F |= ..`,
+    or the same on the result of a method that returns `self.F`."""
+    key = id(repo)
+    if key in _MUT_CACHE:
+        return _MUT_CACHE[key]
+    out: Set[str] = set()
+    accessors: Dict[str, Set[str]] = {}
+    mods = [m for m in repo.modules.values() if m.name.startswith((
+        'edb.pgsql', 'edb.ir', 'edb.edgeql.compiler', 'edb.server.compiler'))]
+    for m in mods:
+        for f in repo._funcs_of(m):
+            P = f.params()
+            if not P or P[0] != 'self':
+                continue
+            for r in ast.walk(f.node):
+                if isinstance(r, ast.Return) and isinstance(
+                        r.value, ast.Attribute) and norm(
+                        r.value.value) == 'self':
+                    accessors.setdefault(f.name, set()).add(r.value.attr)
+
+    def base_fields(e: ast.AST) -> Set[str]:
+        if isinstance(e, ast.Attribute):
+            return {e.attr}
+        if isinstance(e, ast.Call) and isinstance(e.func, ast.Attribute):
+            return accessors.get(e.func.attr, set())
+        return set()
+
+    for m in mods:
+        for x in ast.walk(m.tree):
+            if isinstance(x, ast.Subscript) and isinstance(
+                    x.ctx, (ast.Store, ast.Del)):
+                out |= base_fields(x.value)
+            elif isinstance(x, ast.Call) and isinstance(
+                    x.func, ast.Attribute) and x.func.attr in _MUTATORS:
+                out |= base_fields(x.func.value)
+            elif isinstance(x, ast.AugAssign):
+                out |= base_fields(x.target)
+    _MUT_CACHE.clear()
+    _MUT_CACHE[key] = out
+    return out
+
+
+def _r8(repo: Repo, ctx) -> None:
+    """(a) no tree-node class of the SQL / IR trees has a mutable container
+           as a plain class-level default (edb.common.ast keeps plain
+           defaults as class attributes, so all nodes, across statements
+           and compilations, would share it; `ast.field(factory=...)` is
+           the per-instance form);
+       (b) inside a loop over the arms of a set operation a key into the
+           arm's own path tables is expressed in the arm's coordinates
+           (map_path_id(.., arm.view_path_id_map));
+       (c) the declaration of unused parameters skips exactly the
+           parameters populate_argmap gives no physical slot of their own.
+    """
+    ctx.floor('C13.R8', 4)
+    # (a)
+    # positive control: the detector must recognise the slip shape
+    probe = ast.parse('class Q:\n    m: typing.Dict[int, int] = {}\n'
+                      '    n: list = list()\n    k: int = 0\n').body[0]
+    hits = [st for st in probe.body if isinstance(st, ast.AnnAssign)
+            and st.value is not None and _mutable_default(st.value)]
+    if len(hits) != 2:
+        raise AnalysisError('C13.R8: mutable-default detector self-check')
+    n_cls = 0
+    bad = []
+    for q, c in sorted(repo.classes.items()):
+        if not q.startswith(('edb.pgsql.ast.', 'edb.ir.ast.')):
+            continue
+        if not any(x.startswith('edb.common.ast.') and x.endswith('.AST')
+                   for x in repo.mro(q)):
+            continue
+        n_cls += 1
+        for st in c.node.body:
+            tgt = val = None
+            if isinstance(st, ast.AnnAssign):
+                tgt, val = st.target, st.value
+            elif isinstance(st, ast.Assign) and len(st.targets) == 1:
+                tgt, val = st.targets[0], st.value
+            if val is None or not isinstance(tgt, ast.Name) or \
+                    tgt.id.startswith('__'):
+                continue
+            if _mutable_default(val) and tgt.id in _mutated_fields(repo):
+                bad.append((q, tgt.id, st.lineno))
+    if n_cls < 150:
+        raise AnalysisError(f'C13.R8: only {n_cls} tree-node classes found')
+    ctx.ob('C13.R8', 'tree-nodes:no-shared-mutable-default', not bad,
+           '; '.join(f'{q.split(".")[-1]}.{f} (line {ln}) has a mutable '
+                     f'container as class-level default' for q, f, ln in
+                     bad[:3]) + ': every node of every compilation shares '
+           'that one object and it is changed in place, so what a query '
+           'registered there leaks into '
+           'the next compilation and the same query no longer compiles to '
+           'the same SQL', repo.module(bad[0][0].rsplit('.', 1)[0]).rel()
+           if bad else '', sample=f'{n_cls} node classes')
+    # (b)
+    TABLES = {'path_outputs', 'path_namespace', 'path_rvar_map',
+              'path_scope'}
+    m = repo.module(f'{PGC}.pathctx')
+    n_b = 0
+    for f in repo._funcs_of(m):
+        pids = {p for p in f.params() if p.endswith('path_id')}
+        if not pids:
+            continue
+        for loop in ast.walk(f.node):
+            if not (isinstance(loop, ast.For) and isinstance(
+                    loop.target, ast.Name) and isinstance(
+                    loop.iter, ast.Call) and (call_name(loop.iter) or ''
+                                              ).endswith('each_query_in_set')):
+                continue
+            arm = loop.target.id
+            mapped = {norm(a.targets[0]) for a in ast.walk(loop)
+                      if isinstance(a, ast.Assign) and isinstance(
+                          a.value, ast.Call)
+                      and (call_name(a.value) or '').endswith('map_path_id')
+                      and not (call_name(a.value) or '').endswith(
+                          'reverse_map_path_id')
+                      and len(a.value.args) > 1 and norm(a.value.args[1]) ==
+                      f'{arm}.view_path_id_map'}
+            for x in ast.walk(loop):
+                key = None
+                if isinstance(x, ast.Subscript) and isinstance(
+                        x.value, ast.Attribute) and x.value.attr in TABLES \
+                        and norm(x.value.value) == arm:
+                    key = x.slice
+                elif isinstance(x, ast.Call) and isinstance(
+                        x.func, ast.Attribute) and x.func.attr in (
+                        'get', 'pop', 'setdefault', 'discard', 'add') and \
+                        isinstance(x.func.value, ast.Attribute) and \
+                        x.func.value.attr in TABLES and norm(
+                        x.func.value.value) == arm and x.args:
+                    key = x.args[0]
+                elif isinstance(x, ast.Compare) and isinstance(
+                        x.ops[0], (ast.In, ast.NotIn)) and isinstance(
+                        x.comparators[0], ast.Attribute) and \
+                        x.comparators[0].attr in TABLES and norm(
+                        x.comparators[0].value) == arm:
+                    key = x.left
+                if key is None:
+                    continue
+                k0 = norm(key.elts[0]) if isinstance(key, ast.Tuple) and \
+                    key.elts else norm(key)
+                n_b += 1
+                ctx.saw(f)
+                ctx.ob('C13.R8', f'{f.name}:arm-key@L'
+                       f'{x.lineno - f.node.lineno}', k0 in mapped,
+                       f'{f.name} keys `{arm}`\'s path table by `{k0}`, '
+                       f'which is not map_path_id(.., {arm}.view_path_id_'
+                       f'map): entries registered for the arm live under '
+                       f'the mapped id, so this one misses them (a stale '
+                       f'output survives and a later lookup returns a '
+                       f'column that was removed from the target list)',
+                       f.loc, sample=norm(x)[:70])
+    if n_b < 1:
+        raise AnalysisError('C13.R8: no per-arm path table access found')
+    # (c)
+    pa = repo.func(f'{PGC}.clauses.populate_argmap')
+    ft = repo.func(f'{PGC}.clauses.fini_toplevel')
+    ctx.saw(pa)
+    ctx.saw(ft)
+    slot_attr = None
+    for n in ast.walk(pa.node):
+        if isinstance(n, ast.If) and any(
+                isinstance(a, ast.AugAssign) and 'physical' in norm(a.target)
+                for a in n.body) and isinstance(n.test, ast.UnaryOp) and \
+                isinstance(n.test.op, ast.Not) and isinstance(
+                n.test.operand, ast.Attribute):
+            slot_attr = n.test.operand.attr
+    if slot_attr is None:
+        raise AnalysisError('C13.R8: physical slot rule of populate_argmap '
+                            'not found')
+    found = False
+    for loop in ast.walk(ft.node):
+        if not (isinstance(loop, ast.For) and 'query_params' in norm(
+                loop.iter) and isinstance(loop.target, ast.Name)):
+            continue
+        pv = loop.target.id
+        for n in ast.walk(loop):
+            if isinstance(n, ast.If) and any(isinstance(b, ast.Continue)
+                                             for b in n.body):
+                attrs = {x.attr for x in ast.walk(n.test) if isinstance(
+                    x, ast.Attribute) and norm(x.value) == pv}
+                found = True
+                ctx.ob('C13.R8', 'fini_toplevel:unused-params-skip',
+                       attrs == {slot_attr},
+                       f'the unused-parameter declaration skips parameters '
+                       f'by {sorted(attrs)} but populate_argmap gives a '
+                       f'parameter no slot of its own by `{slot_attr}`: a '
+                       f'tuple parameter is declared at the index of its '
+                       f'first component with the wrong type, and unused '
+                       f'components are left undeclared, so the SQL\'s $n '
+                       f'disagree with the argument map', ft.loc,
+                       sample=norm(n.test))
+    if not found:
+        raise AnalysisError('C13.R8: unused-parameter loop of fini_toplevel '
+                            'not found')
+    ct = repo.func(f'{PGC}.compile_ir_to_sql_tree')
+    for c in ast.walk(ct.node):
+        if isinstance(c, ast.DictComp) and 'argmap' in norm(c.key):
+            g = c.generators[0]
+            pv = norm(g.target)
+            attrs = {x.attr for i in g.ifs for x in ast.walk(i) if isinstance(
+                x, ast.Attribute) and norm(x.value) == pv}
+            ctx.ob('C13.R8', 'compile_ir_to_sql_tree:detached-params-slots',
+                   attrs == {slot_attr},
+                   f'detached parameter types are listed for parameters '
+                   f'filtered by {sorted(attrs)}; populate_argmap decides '
+                   f'physical slots by `{slot_attr}`', ct.loc,
+                   sample=' '.join(norm(i) for i in g.ifs))
